@@ -830,6 +830,10 @@ func main() {
 		runChild(*childJob)
 		return
 	}
+	if *overlapChild != "" {
+		overlapChildMain(*overlapChild)
+		return
+	}
 	if *recTreeChild != "" {
 		recTreeChildMain(*recTreeChild)
 		return
@@ -889,6 +893,7 @@ func main() {
 	// 1. the closed word / exit codes
 	exitCodeGrid()
 	recTreeStage()
+	overlapStage()
 
 	// 2. structural tie
 	perKind, nRandom := 3, 150
